@@ -282,8 +282,8 @@ def queries(tier, seed):
     for Ls in (([3, 1, 2],) if tier == "quick" else ([3, 1, 2], [0, 4, 1], [2, 2, 3], [1, 0, 0])):
         qs.append(Q(f"nested_unknown/{'_'.join(map(str, Ls))}", "nested_unknown", {"Ls": Ls}, cto=t, pto=t,
                     what=f"unknown members (lengths {Ls}) nested two levels inside Failed-AVP: flags/data symbolic"))
-    for depth in ((40,) if tier == "quick" else (8, 40, 64)):
-        qs.append(Q(f"deep/d{depth}", "deep", {"depth": depth, "L": 3}, cto=t, pto=t,
+    for depth in ((36,) if tier == "quick" else (8, 36, 64)):
+        qs.append(Q(f"deep/d{depth}", "deep", {"depth": depth, "L": 3}, cto=max(t, 400), pto=max(t, 400),
                     what=f"Failed-AVP nested to depth {depth} around an unknown leaf with symbolic flags/data: decoded level by level, re-encoded identically"))
     for L in ((1, 4) if tier == "quick" else (0, 1, 2, 3, 4, 5)):
         qs.append(Q(f"twins/L{L}", "twins", {"L": L}, cto=t, pto=t,
@@ -292,7 +292,7 @@ def queries(tier, seed):
 
 
 BOUNDS = ["same-code siblings with free flags/data (byte-identical siblings included) at three levels", "header: all values of all fields", "streams of 1..3 messages with <= 4 unknown AVPs each, every data length residue, flags (M,P,reserved) symbolic",
-          "dictionary classes with default flags: quick = all Grouped + custom-logic + one per (type, vendor-ness); thorough = all", "nesting depth 3; one chain of depth 40 (quick) / 64"]
+          "dictionary classes with default flags: quick = all Grouped + custom-logic + one per (type, vendor-ness); thorough = all", "nesting depth 3; one chain of depth 36 (quick) / 64"]
 OUTSIDE = ["non-zero padding bytes (not well-formed)", "streams of more than 3 messages", "unknown (vendor, code) pairs are concrete constants per position "
            "(the loader only hashes and compares them)", "known AVPs carrying non-default flag bits: open known finding (region excluded, witness replayed)"]
 ASSUMPTIONS = ["reference encoder produces the wire images", "frozen reference dictionary for (vendor, code) -> class and default flags"]
